@@ -121,9 +121,9 @@ fn parse_rule(cst: &Cst<'_>, node_ref: NodeRef, source: &str) -> Result<Value, E
                 let content =
                     iter.clone()
                         .filter_map(Value::keys)
-                        .fold(content, |mut acc, mut keys| {
+                        .fold(content, |mut acc, keys| {
                             for (key, value) in &mut acc {
-                                if !keys.any(|k| k == key) {
+                                if !keys.clone().any(|k| k == key) {
                                     value.to_optional_mut();
                                 }
                             }
